@@ -21,7 +21,7 @@ import (
 // Runs is the number of rig run indices of a tier.
 func Runs(tier string) int {
 	if tier == "thorough" {
-		return 9600 // x4 schedules, ~25x more cancellation points per schedule than quick
+		return 4800 // x2 schedules, ~25x more cancellation points per schedule than quick (about an hour on 16 cores)
 	}
 	return 2400
 }
